@@ -2110,7 +2110,7 @@ int64 Atoll(const char * str)
       s++;
    }
    const int64 ret = (int64) Atoull(s);
-   return negative ? -ret : ret;
+   return negative ? ((int64)(((uint64)0)-((uint64)ret))) : ret;  // negate as unsigned:  -ret would overflow for "-9223372036854775808"
 }
 
 #ifdef MUSCLE_SINGLE_THREAD_ONLY
